@@ -1,7 +1,7 @@
 (* C16: the leaf functions and tables regenerated from the CURRENT source (coq/gen/Gen_C16_*.v) are the leafs of the
    model (coq/C16/Defs.v).  A source change that alters a constant, a macro body, a SET line or from_hex breaks a lemma here. *)
 From CppcmsV Require Import Base.Tac Base.CSem Base.Sweep C16.Defs C16.Blocks.
-From CppcmsV Require Import gen.Gen_C16_md5 gen.Gen_C16_crypto gen.Gen_C16_md5steps.
+From CppcmsV Require Import gen.Gen_C16_md5 gen.Gen_C16_crypto gen.Gen_C16_md5steps gen.Gen_C16_sha1consts.
 Local Open Scope N_scope.
 
 (* ---------- tables: closed terms, by evaluation ---------- *)
@@ -140,3 +140,40 @@ Proof.
   unfold wrapu. rewrite (Z.mod_small (32 - Z.of_N s)) by (change (2 ^ 64) with 18446744073709551616; lia).
   apply (rot_bits Z.lxor xorb Z.lxor_spec eq_refl); [change (2 ^ 32) with 4294967296|]; lia.
 Qed.
+
+(* ---------- private/sha1.h: the numbers of process_block() and reset() (text extractor with a rigid shape check) ---------- *)
+Local Open Scope N_scope.
+Lemma link_sha1_h0 :
+  (let '(a, b, c, d, e) := sha1_h0 in [Z.of_N a; Z.of_N b; Z.of_N c; Z.of_N d; Z.of_N e]) = g_sha1_h0.
+Proof. vm_compute. reflexivity. Qed.
+(* the if-ladder: the number of thresholds that are <= t selects the constant (and the function) of round t *)
+Definition ladder_index (t : N) : nat := length (filter (fun th => Z.leb th (Z.of_N t)) g_sha1_thresholds).
+Lemma link_sha1_k t : t < 80 -> Z.of_N (sha1_k t) = nth (ladder_index t) g_sha1_K 0%Z.
+Proof.
+  intros H. apply Z.eqb_eq.
+  apply (sweep_N 80 (fun t => Z.eqb (Z.of_N (sha1_k t)) (nth (ladder_index t) g_sha1_K 0%Z))); [vm_compute; reflexivity|exact H].
+Qed.
+Lemma link_sha1_f_ladder t : t < 80 ->
+  forall b c d, sha1_f t b c d =
+    nth (ladder_index t) [N.lor (N.land b c) (N.land (not32 b) d); N.lxor (N.lxor b c) d;
+                          N.lor (N.lor (N.land b c) (N.land b d)) (N.land c d); N.lxor (N.lxor b c) d] 0.
+Proof.
+  intros H b c d. unfold sha1_f.
+  assert (E : (if t <? 20 then 0%nat else if t <? 40 then 1%nat else if t <? 60 then 2%nat else 3%nat) = ladder_index t).
+  { apply Nat.eqb_eq.
+    apply (sweep_N 80 (fun t => Nat.eqb (if t <? 20 then 0%nat else if t <? 40 then 1%nat else if t <? 60 then 2%nat else 3%nat)
+                                        (ladder_index t))); [vm_compute; reflexivity|exact H]. }
+  rewrite <- E. destruct (t <? 20); [reflexivity|]. destruct (t <? 40); [reflexivity|]. destruct (t <? 60); reflexivity.
+Qed.
+(* schedule: w[i] = left_rotate(w[i-3] ^ w[i-8] ^ w[i-14] ^ w[i-16], 1); rw holds w[i-1], w[i-2], ... *)
+Lemma link_sha1_wnext rw :
+  sha1_wnext rw =
+  sha1_rotl (fold_left N.lxor (map (fun o => nth (Z.to_nat o - 1) rw 0) (tl g_sha1_sched_offsets))
+                       (nth (Z.to_nat (hd 0%Z g_sha1_sched_offsets) - 1) rw 0))
+            (Z.to_N g_sha1_sched_rot).
+Proof. reflexivity. Qed.
+Lemma link_sha1_round a b c d e i w :
+  sha1_round (a, b, c, d, e) (i, w) =
+  (add32 (add32 (add32 (add32 (sha1_rotl a (Z.to_N g_sha1_rot_a)) (sha1_f (N.of_nat i) b c d)) e) (sha1_k (N.of_nat i))) w,
+   a, sha1_rotl b (Z.to_N g_sha1_rot_b), c, d).
+Proof. reflexivity. Qed.
